@@ -348,6 +348,7 @@ class Function:
             from . import normal
             normal.normalise(self)
             normal.rename_to_baseline(self)
+            normal.orient_to_baseline(self)
 
     @property
     def key(self):
